@@ -51,3 +51,38 @@ package http2
 //@   ensures [C20:fresh-or-recycled-empty-queue] q != nil && len(q.s) == 0
 //@   ensures len(old(deref(p))) == 0 ==> fresh(q) && deref(p) == old(deref(p))
 //@   ensures len(old(deref(p))) > 0 ==> q == old(deref(p))[len(old(deref(p)))-1] && deref(p) == old(deref(p))[:len(old(deref(p)))-1]
+
+//@ -- schedulers -----------------------------------------------------------------------------------------------
+//@ pure func poolOK(p seq[*writeQueue]) bool = forall i int :: 0 <= i && i < len(p) ==> p[i] != nil && len(p[i].s) == 0
+
+//@ func FrameWriteRequest.isControl :: wr -> r
+//@   props C20
+//@   assigns nothing
+//@   ensures r <==> wr.stream == nil
+
+//@ func FrameWriteRequest.StreamID :: wr -> id
+//@   props C20
+//@   requires wr.stream != nil || !wr.write.(StreamError) || true
+//@   assigns nothing
+//@   ensures wr.stream != nil ==> id == wr.stream.id
+
+//@ func FrameWriteRequest.DataSize :: wr -> n
+//@   props C20
+//@   requires isData(wr) ==> dataOf(wr) != nil
+//@   assigns nothing
+//@   ensures n == ite(isData(wr), len(dataOf(wr).p), 0)
+
+//@ -- random scheduler: control frames in `zero`, one queue per stream id in the map
+//@ pure func rwsInv(ws *randomWriteScheduler) bool = ws.sq != nil && wfQueue(ws.zero) && poolOK(ws.queuePool) && (forall id uint32 :: mapHas(ws.sq, id) ==> mapGet(ws.sq, id) != nil && wfQueue(mapGet(ws.sq, id)))
+
+//@ func (*randomWriteScheduler).Push :: ws, wr
+//@   props C20
+//@   requires ws != nil && rwsInv(ws) && wfReq(wr)
+//@   ensures [C20:control-frames-to-control-queue] wr.stream == nil ==> ws.zero.s == old(ws.zero.s) ++ seq[FrameWriteRequest]{wr}
+//@   ensures [C20:stream-frames-appended-to-their-queue] wr.stream != nil ==> mapHas(ws.sq, wr.stream.id) && mapGet(ws.sq, wr.stream.id) != nil && len(mapGet(ws.sq, wr.stream.id).s) >= 1 && mapGet(ws.sq, wr.stream.id).s[len(mapGet(ws.sq, wr.stream.id).s)-1] == wr && ws.zero.s == old(ws.zero.s)
+
+//@ func (*randomWriteScheduler).Pop :: ws -> wr, ok
+//@   props C20
+//@   requires ws != nil && rwsInv(ws)
+//@   ensures [C20:control-first] len(old(ws.zero.s)) > 0 ==> ok && wr == old(ws.zero.s)[0] && ws.zero.s == old(ws.zero.s)[1:]
+//@   loop 1 invariant len(ws.zero.s) == 0 && ws.zero.s == old(ws.zero.s)
